@@ -138,11 +138,8 @@ pub fn run_bytes(ctx: &Ctx, target: &str, bytes: &[u8]) -> Outcome {
         let bounded = target == "c09_log_bytes" && peak <= alloc::DOCUMENTED_BOUND + (4 << 20);
         if !bounded {
             o.fail(format!("{target}:alloc-huge"), format!("a single allocation of {peak} bytes was requested for a {}-byte input", bytes.len()));
-        } else if ctx.strict {
-            o.fail("log:alloc-huge:frame-size-trusted-up-to-TABLE_FULL_SIZE", format!("the log reader requested a single allocation of {peak} bytes for a {}-byte input", bytes.len()));
         } else {
             o.label("alloc:>64MiB-for-a-small-file(within-documented-bound)");
-            o.excluded.push("R-T".into());
         }
     }
     o
